@@ -3,7 +3,7 @@
    No Extract Constant directive is used. *)
 From Coq Require Import ExtrOcamlBasic.
 From Coq Require Import ZArith NArith List.
-From V Require Import Model.Quorum Model.Median Model.ZMap Model.HgImpl Model.Store Model.NodeModel Model.HgSpec Model.Gate Model.Proxy.
+From V Require Import Model.Quorum Model.Median Model.ZMap Model.HgImpl Model.Store Model.NodeModel Model.HgSpec Model.Gate Model.Proxy Model.FastSync.
 Extraction Language OCaml.
 Set Extraction KeepSingleton.
 Separate Extraction Z.add Z.mul Z.div Z.modulo Z.opp Z.sub Z.of_nat Z.to_nat Z.of_N Z.to_N Z.eqb Z.ltb Z.leb
@@ -15,4 +15,7 @@ Separate Extraction Z.add Z.mul Z.div Z.modulo Z.opp Z.sub Z.of_nat Z.to_nat Z.o
   NodeModel.pools0 NodeModel.pstep NodeModel.busy
   HgSpec.spec_mismatches
   Gate.process_rpc Gate.add_transaction Gate.check_suspend Gate.init_state Gate.step Gate.run
-  Proxy.call Proxy.call_attempts Proxy.through_block Proxy.through_cresp Proxy.through_bytes.
+  Proxy.call Proxy.call_attempts Proxy.through_block Proxy.through_cresp Proxy.through_bytes
+  FastSync.ff_decide FastSync.ff_decide_fixed FastSync.core_ff FastSync.core_ff_fixed FastSync.node_ff
+  FastSync.node_ff_fixed FastSync.core_ff_gen FastSync.node_ff_gen FastSync.rule_current FastSync.rule_fixed
+  FastSync.distinct_valid_signers FastSync.ffres_class.
